@@ -23,6 +23,10 @@ from infocf.log_setup import get_logger
 
 logger = get_logger(__name__)
 
+# slot of the current query in the CNF dictionaries; distinct from every integer key a belief
+# base may use for its conditionals (0 is a legal key)
+QUERY_KEY = "query"
+
 
 class SystemW(Inference):
     """
@@ -69,8 +73,8 @@ class SystemW(Inference):
         # self._translation_start()
         tseitin_transformation = TseitinTransformation(self.epistemic_state)
         translated_query = tseitin_transformation.query_to_cnf(query)
-        self.epistemic_state["v_cnf_dict"][0] = translated_query[0]
-        self.epistemic_state["f_cnf_dict"][0] = translated_query[1]
+        self.epistemic_state["v_cnf_dict"][QUERY_KEY] = translated_query[0]
+        self.epistemic_state["f_cnf_dict"][QUERY_KEY] = translated_query[1]
         wcnf = WCNF()
         if not weakly:
             result = self._rec_inference(
@@ -83,7 +87,7 @@ class SystemW(Inference):
             if len(self.epistemic_state["partition"]) < 2:
                 # no finite layer: all feasible worlds are equally plausible, so the query
                 # holds iff no feasible world satisfies A and not B
-                [wcnf.append(c) for c in self.epistemic_state["f_cnf_dict"][0]]
+                [wcnf.append(c) for c in self.epistemic_state["f_cnf_dict"][QUERY_KEY]]
                 optimizer = create_optimizer(self.epistemic_state)
                 return not optimizer.minimal_correction_subsets(
                     wcnf,
@@ -119,8 +123,8 @@ class SystemW(Inference):
             softc = self.epistemic_state["nf_cnf_dict"][index]
             [wcnf.append(s, weight=1) for s in softc]
         wcnf_prime = wcnf.copy()
-        [wcnf.append(c) for c in self.epistemic_state["v_cnf_dict"][0]]
-        [wcnf_prime.append(c) for c in self.epistemic_state["f_cnf_dict"][0]]
+        [wcnf.append(c) for c in self.epistemic_state["v_cnf_dict"][QUERY_KEY]]
+        [wcnf_prime.append(c) for c in self.epistemic_state["f_cnf_dict"][QUERY_KEY]]
         optimizer = create_optimizer(self.epistemic_state)
         ignore = [
             item
